@@ -26,6 +26,7 @@ const (
 
 type gRef struct {
 	Alias     bool // the reference names the target by its alias
+	XC        bool // (deferred call of a run: always task) the call passes XC: '{{.EXIT_CODE}}'
 	Target    int
 	VMode     int
 	VLit      string
@@ -61,6 +62,7 @@ type gTask struct {
 	Prompt   bool
 	Internal bool
 	VUse     string // "cmd" (default), "env": where a when_changed task lets V surface
+	PrintXC  bool   // some deferred call passes XC to this task: its probes print it
 	Dir      string
 	DynVar   bool
 }
@@ -245,6 +247,7 @@ func genG(ch *vs.Choices, b gBias) *gProg {
 					if c.Ref.VMode == vInherit {
 						c.DeferTplV = true
 					}
+					c.Ref.XC = ch.Bool(1, 2)
 				}
 				c.For = nil
 			}
@@ -387,6 +390,13 @@ func gSanitize(p *gProg, b gBias) {
 		for i := range t.Cmds {
 			if t.Cmds[i].Kind == gCall {
 				fix(&t.Cmds[i].Ref)
+				if t.Cmds[i].Ref.XC {
+					if tg := p.Tasks[t.Cmds[i].Ref.Target]; t.Cmds[i].Defer && effRun(p, tg) == "always" {
+						tg.PrintXC = true
+					} else {
+						t.Cmds[i].Ref.XC = false
+					}
+				}
 				if t.Cmds[i].Defer && t.Cmds[i].Ref.VMode != vInherit {
 					t.Cmds[i].DeferTplV = false
 				}
@@ -507,6 +517,9 @@ func renderRefVars(p *gProg, from *gTask, r gRef, edge string, deferTpl bool) st
 			kv = append(kv, "V: '{{.ITEM}}'")
 		}
 	}
+	if r.XC {
+		kv = append(kv, "XC: '{{.EXIT_CODE}}'")
+	}
 	if len(kv) == 0 {
 		return ""
 	}
@@ -541,6 +554,9 @@ func probeText(p *gProg, t *gTask, idx int, c gCmd) string {
 	}
 	if c.Defer {
 		extra += "|X={{.EXIT_CODE}}"
+	}
+	if t.PrintXC {
+		extra += "|XC={{.XC}}"
 	}
 	q := `"`
 	s := fmt.Sprintf("echo %sS|%s|%s|%s|%s%s", q, pe, t.Name, lab, extra, q)
